@@ -285,7 +285,7 @@ def sweep(cns, rns, work, cfg):
 
 
 # ------------------------------------------------------------------------------------------ parent side
-REACH = ['__dataclass_fields__', '__dataclass_params__', '__match_args__', '_HAS_DEFAULT_FACTORY', 'FrozenInstanceError']
+REACH = ['__dataclass_fields__', '__dataclass_params__', '__match_args__', '_HAS_DEFAULT_FACTORY', '__pyx_tp_richcompare']
 
 
 def _ref_rejects(ref_src):
